@@ -29,7 +29,10 @@ stream and resumes — the PDUs of the disturbed run are exactly those of the un
 `C03_end_to_end_metadata_loss` (the METADATA PDU is lost: the transaction starts without a destination,
 nothing is stored, one NAK requests the Metadata and the whole file, the sender answers with exactly the
 original Metadata PDU and tiles, the receiver creates the destination, stores them — each shrinking the
-lost range from its head —, verifies and completes).
+lost range from its head —, verifies and completes); `C03_end_to_end_last_tile_loss` (the LAST tile, of any
+length up to the segment length, is lost: the EOF reveals the missing tail, which is requested and served
+with exactly the lost tile; `C03_recovery_from_waiting_short` for any lost range of at most one segment).
+Together with `C03_end_to_end_single_loss`: any one File Data PDU, whatever its position.
 The building blocks are stated from states, not from
 runs (`C03_prefix_single_loss`, `C03_recovery_from_waiting`, `C03_closing*`), so they compose.
 Proved as whole-run theorems about the receiver model: `C03_single_loss_recovery` (any one File Data PDU but the last never arrives: exactly one NAK
@@ -3740,6 +3743,332 @@ theorem C03_end_to_end_metadata_loss (envS : Source.Env) (envD : Dest.Env) (s : 
       simp [isFinished, fpOk]
 
 
+/-! ## The last File Data PDU is lost -/
+
+/-- a request of at most one segment is served with one chunk -/
+theorem chunkPdus_one_chunk (conf : Hdr) (F : List UInt8) (seg a len : Nat) (hlen : 0 < len) (hle : len ≤ seg) :
+    Source.C08.chunkPdus conf F seg len a len = [Source.mkFd conf a ((F.drop a).take len)] := by
+  obtain ⟨n, rfl⟩ : ∃ n, len = n + 1 := ⟨len - 1, by omega⟩
+  have hmin : min (n + 1) seg = n + 1 := by omega
+  cases n with
+  | zero => simp [Source.C08.chunkPdus, hmin]
+  | succ n => simp [Source.C08.chunkPdus, hmin]
+
+/-- **NAK for a range of at most one segment at the sender** (it waits for the Finished PDU or is in
+the retransmission step of an earlier NAK): one File Data PDU with exactly the requested bytes -/
+theorem C03_sender_serves_short_request (env : Source.Env) (s : Source.SrcSt) (rc : RemoteCfg) (h : Hdr)
+    (req : Source.PutReq) (src : String) (F : List UInt8) (a b sos eos : Nat)
+    (ha : AdmissibleS env s rc h) (hb : s.state = .busy)
+    (hstep : s.step = .WAITING_FOR_FINISHED ∨
+      (s.step = .RETRANSMITTING ∧ s.stepBefore = some .WAITING_FOR_FINISHED))
+    (hq : s.queue = []) (hreq : s.putReq = some req) (hsrc : req.src = some src)
+    (hfile : s.fs.get src = some (.file F)) (hab : a < b) (hle : b - a ≤ s.p.segmentLen)
+    (hbp : b ≤ s.p.progress) :
+    Source.stateMachine env (some (.nak h sos eos [(a, b)])) s =
+      .ok () (retransS s [Source.mkFd s.p.conf a ((F.drop a).take (b - a))]) := by
+  have hseg : 0 < s.p.segmentLen := by omega
+  obtain ⟨st, stp, nr, p, sb, pr, q, fs, fl, pv, ind, flt⟩ := s
+  have h1 := ha.hrc; have h2 := ha.hseq; have h3 := ha.hmode
+  simp only at hb hq hreq hfile hle hbp h1 h2 h3 hseg hstep
+  subst hb hq hreq
+  have hserve := Source.C08.C08_valid_request_served
+    (⟨.busy, .WAITING_FOR_FINISHED, nr, p, some .WAITING_FOR_FINISHED, some req, [], fs, fl, pv, ind, flt⟩ : Source.SrcSt)
+    req src F a b rfl hsrc hfile hseg (by omega) (by omega) hbp
+  have hserve2 := Source.C08.C08_valid_request_served
+    (⟨.busy, .WAITING_FOR_FINISHED, nr, p, sb, some req, [], fs, fl, pv, ind, flt⟩ : Source.SrcSt)
+    req src F a b rfl hsrc hfile hseg (by omega) (by omega) hbp
+  simp only [chunkPdus_one_chunk _ _ _ _ _ (by omega : 0 < b - a) hle, List.nil_append] at hserve hserve2
+  rcases hstep with hs | ⟨hs, hsb⟩
+  · subst hs
+    msimp [Source.stateMachine, Source.checkInsertedPacket, Pdu.hdr, ha.hdir, ha.hsrc, h1, ha.hdst, h2,
+      Pdu.kind, Route.getPacketDestination, h3, Source.fsmNonIdle,
+      Source.fsmAdvancementAfterPacketsWereSent, Source.fsmFromSendingFileData, Source.fsmFromSendingEof,
+      Source.fsmFromWaitingForEofAck,
+      Source.fsmFromWaitingForFinished, Source.handleWaitForFinish, Source.transmissionMode,
+      Source.handleRetransmission, Source.handleSegmentReqs, hserve2, Source.modP, Source.getP, Source.addPacket,
+      Source.fsmFromNoticeOfCompletion, retransS]
+  · subst hs hsb
+    msimp [Source.stateMachine, Source.checkInsertedPacket, Pdu.hdr, ha.hdir, ha.hsrc, h1, ha.hdst, h2,
+      Pdu.kind, Route.getPacketDestination, h3, Source.fsmNonIdle,
+      Source.fsmAdvancementAfterPacketsWereSent, Source.fsmFromSendingFileData, Source.fsmFromSendingEof,
+      Source.fsmFromWaitingForEofAck,
+      Source.fsmFromWaitingForFinished, Source.handleWaitForFinish, Source.transmissionMode,
+      Source.handleRetransmission, Source.handleSegmentReqs, hserve, Source.modP, Source.getP, Source.addPacket,
+      Source.fsmFromNoticeOfCompletion, retransS]
+
+/-- **Recovery, from the state in which the receiver waits for the bytes `[a, b)`, at most one segment
+long** (general stored content `G`): as `C03_recovery_from_waiting`, for any lost range of at most one
+segment whose arrival completes the file — in particular a shorter last tile. -/
+theorem C03_recovery_from_waiting_short (cfgS cfgD : LocalCfg) (sW : Source.SrcSt) (dW : DestSt)
+    (req : Source.PutReq) (src dst : String) (F crc G : List UInt8) (seg a b m : Nat) (conf : Hdr)
+    (rcS rcD : RemoteCfg) (tid : Tid) (cksN : Nat) (tm : Timer) (t1 t2 t3 t4 t5 : Nat)
+    (hS : SentAllS sW req src F seg conf rcS tid)
+    (hstep : sW.step = .WAITING_FOR_FINISHED ∨
+      (sW.step = .RETRANSMITTING ∧ sW.stepBefore = some .WAITING_FOR_FINISHED))
+    (hW : Waiting dW dst F crc a b rcD ⟨conf.src, conf.seq⟩ cksN
+      ⟨.toSend, conf.mode, conf.crc, conf.large, conf.src, conf.dst, conf.seq⟩ tm G m)
+    (ha : ∀ t, AdmissibleA ⟨cfgD, t⟩ rcD { conf with dir := .toRecv })
+    (hsrcv : conf.src.val = cfgS.entityId.val) (hdstv : conf.dst.val = rcS.entityId.val)
+    (hab : a < b) (hle : b - a ≤ seg) (hbF : b ≤ F.length) (hackD : rcD.ackMs ≠ 0)
+    (hw : Fs.writeBytes G ((F.drop a).take (b - a)) a = F) (h7 : max b m = F.length)
+    (hver : cksN = 15 ∨ ∀ fs : Fs, fs.get dst = some (.file F) →
+      Fs.calcChecksum fs (Checksum.CksType.ofNat cksN) dst F.length 4096 = .ok crc) :
+    let cd : Hdr := ⟨.toSend, conf.mode, conf.crc, conf.large, conf.src, conf.dst, conf.seq⟩
+    let fpOk : FinishedParams := ⟨ccNoError, dcComplete, fsRetained, none⟩
+    let lost := Source.mkFd conf a ((F.drop a).take (b - a))
+    ∃ s5 d7 s6 d8 s7,
+      Source.stateMachine ⟨cfgS, t1⟩ (some (.nak cd 0 F.length [(a, b)])) sW = .ok () s5 ∧ s5.queue = [lost] ∧
+      Dest.stateMachine ⟨cfgD, t2⟩ (some lost) dW = .ok () d7 ∧ d7.queue = [.fin cd fpOk] ∧
+      Source.stateMachine ⟨cfgS, t3⟩ (some (.fin cd fpOk)) (Source.C07.drained s5) = .ok () s6 ∧
+      s6.queue = [Source.mkAck conf dtFinished ccNoError tsActive] ∧
+      Dest.stateMachine ⟨cfgD, t4⟩ (some (Source.mkAck conf dtFinished ccNoError tsActive)) (drained d7) = .ok () d8 ∧
+      Source.stateMachine ⟨cfgS, t5⟩ none (Source.C07.drained s6) = .ok () s7 ∧
+      s7.state = .idle ∧ d8.state = .idle ∧ s7.queue = [] ∧ d8.queue = [] ∧
+      d8.fs.get dst = some (.file F) ∧ (∀ q, q ≠ dst → d8.fs.get q = dW.fs.get q) ∧ s7.fs = sW.fs ∧
+      d8.flts = dW.flts ∧ s7.flts = sW.flts ∧
+      s7.inds.filter isFinished = sW.inds.filter isFinished ++
+        (if cfgS.indFinished then [.finished (some tid) fpOk] else []) ∧
+      d8.inds.filter isFinished = dW.inds.filter isFinished ++
+        (if cfgD.indFinished then [.finished (some ⟨conf.src, conf.seq⟩) fpOk] else []) := by
+  intro cd fpOk lost
+  have hmodeS : conf.mode = .ack := hW.hmode
+  have hadm : ∀ t (s' : Source.SrcSt), s'.p = sW.p → AdmissibleS ⟨cfgS, t⟩ s' rcS cd := fun t s' hp =>
+    { hdir := rfl, hsrc := hsrcv, hrc := by rw [hp]; exact hS.hrc, hdst := hdstv,
+      hseq := by rw [hp, hS.hconf], hmode := by rw [hp, hS.hconf]; exact hmodeS }
+  have h5 := C03_sender_serves_short_request ⟨cfgS, t1⟩ sW rcS cd req src F a b 0 F.length (hadm t1 sW rfl) hS.hbusy
+    hstep hS.hqueue hS.hreq hS.hsrc hS.hfile hab (by rw [hS.hseg]; exact hle) (by rw [hS.hprog]; exact hbF)
+  rw [hS.hconf] at h5
+  have hret := C03_retransmission_completes ⟨cfgD, t2⟩ dW dst F crc a b rcD _ cksN _ { conf with dir := .toRecv } tm _ _ hW
+    (ha t2) hab hbF hackD hw h7 hver
+  have h6 := C03_sender_finished_after_retransmission ⟨cfgS, t3⟩ (Source.C07.drained (retransS sW [lost])) rcS cd
+    fpOk req (hadm t3 _ rfl) hS.hbusy rfl rfl rfl hS.hreq
+  have hfa := C02_finished_acked ⟨cfgD, t4⟩
+    (drained (afterRetransmission ⟨cfgD, t2⟩ dW dst F a b ⟨conf.src, conf.seq⟩ rcD tm))
+    rcD { conf with dir := .toRecv } ccNoError tsActive (ha t4) hW.hbusy rfl rfl
+    (by simp [drained, afterRetransmission, doneP, hW.hconf]; exact hmodeS)
+  have h7' := C02_source_completion ⟨cfgS, t5⟩
+    (Source.C07.drained (afterFinS (waitFinS (Source.C07.drained (retransS sW [lost]))) fpOk)) fpOk tid req
+    hS.hbusy rfl rfl hS.hreq rfl hS.htid
+  refine ⟨_, _, _, idleOf (drained (afterRetransmission ⟨cfgD, t2⟩ dW dst F a b ⟨conf.src, conf.seq⟩ rcD tm)), _,
+    h5, rfl, hret, ?_, h6, ?_, ?_, h7', rfl, rfl, rfl, rfl, ?_, ?_, rfl, rfl, rfl, ?_, ?_⟩
+  · simp [afterRetransmission, Dest.mkFin, hW.hconf, cd, fpOk]
+  · show [Source.mkAck sW.p.conf dtFinished fpOk.cond tsActive] = _
+    rw [hS.hconf]
+  · simpa [Source.mkAck, dtFinished, idleOf] using hfa
+  · simp [idleOf, drained, afterRetransmission, Fs.C17.get_set_same]
+  · intro q hq'
+    simp only [idleOf, drained, afterRetransmission]
+    rw [Fs.C17.get_set_other _ _ _ _ hq']
+  · simp only [Source.C07.drained, afterFinS, waitFinS, retransS, List.filter_append]
+    cases cfgS.indFinished <;> simp [isFinished, fpOk]
+  · simp only [idleOf, drained, afterRetransmission, List.filter_append]
+    cases cfgD.indSegRecv <;> cases cfgD.indFinished <;> simp [isFinished, fpOk]
+
+/-- the receiver's NAK timer is untouched while it takes in-order tiles -/
+theorem receiver_tiles_keep_timer (env : Dest.Env) (conf cd : Hdr) (rc : RemoteCfg) (t : Tid) (cks : Nat)
+    (dst : String) (F : List UInt8) (seg : Nat) (hseg : 0 < seg)
+    (ha : AdmissibleA env rc { conf with dir := .toRecv }) :
+    ∀ (k : Nat) (d d' : Dest.DestSt), (k = 0 ∨ (k - 1) * seg < F.length) →
+      ReceivingA d dst [] rc t cks cd →
+      feedPdus env ((List.range k).map (Source.C07.tile conf F seg 0)) d = some d' →
+      d'.p.procTimer = d.p.procTimer := by
+  intro k
+  induction k with
+  | zero => intro d d' _ _ hf; simp [feedPdus] at hf; rw [hf]
+  | succ k ih =>
+    intro d d' hk hr hf
+    have hklt : k * seg < F.length := by simpa using hk
+    have hk' : k = 0 ∨ (k - 1) * seg < F.length := by
+      by_cases h0 : k = 0
+      · exact Or.inl h0
+      · right
+        have : (k - 1) * seg ≤ k * seg := Nat.mul_le_mul_right _ (by omega)
+        omega
+    obtain ⟨d1, hf1, hR, -, -⟩ := receiver_takes_tiles_ack env conf cd rc t cks dst F seg hseg ha k d hk' hr
+    have hpt1 := ih d d1 hk' hr hf1
+    have hlen : (F.take (k * seg)).length = k * seg := by simp [List.length_take]; omega
+    have hdata : (F.drop (k * seg)).take seg ≠ [] := by
+      intro h
+      have := congrArg List.length h
+      simp [List.length_take, List.length_drop] at this
+      omega
+    have htile := C02_tile_ack env d1 dst (F.take (k * seg)) ((F.drop (k * seg)).take seg) rc t cks cd
+      { conf with dir := .toRecv } hR ha hdata
+    rw [hlen] at htile
+    rw [List.range_succ, List.map_append, feedPdus_append, hf1] at hf
+    simp only [Option.bind, List.map_cons, List.map_nil, feedPdus, Source.C07.tile, Source.mkFd, Nat.zero_add,
+      htile.1] at hf
+    simp at hf
+    rw [← hf, ← hpt1]; rfl
+
+open Source.C07 Source.C19 in
+/-- **End to end with the LAST File Data PDU lost (deferred NAK mode): the two models composed.**  The
+sender emits Metadata, `n + 1` tiles and the EOF; the link loses the last tile (any length up to the
+segment length).  The receiver has the first `n·seg` bytes when the EOF announces `|F|`: it records
+the tail as lost, acknowledges the EOF, and its next call requests exactly `[n·seg, |F|)`; the sender
+answers with exactly the lost tile; the transfer closes as in `C03_recovery_from_waiting_short`. -/
+theorem C03_end_to_end_last_tile_loss (envS : Source.Env) (envD : Dest.Env) (s : Source.SrcSt) (d0 : Dest.DestSt)
+    (req : Source.PutReq) (rcS rcD : RemoteCfg) (src dst : String) (F crc : List UInt8) (seg n maxSegs : Nat)
+    (tA tD1 t1 t2 t3 t4 t5 : Nat)
+    (hst : s.state = .busy) (hstep : s.step = .IDLE) (hq : s.queue = []) (hreq : s.putReq = some req)
+    (hpmo : s.p.metadataOnly = false) (hsrc : req.src = some src) (hdst : req.dst = some dst)
+    (hfile : s.fs.get src = some (.file F)) (hF : F ≠ []) (hprog : s.p.progress = 0)
+    (hrc : s.p.remoteCfg = some rcS) (hrcid : rcS.entityId.val = req.destId.val)
+    (hbits : s.prov.bits = 8 ∨ s.prov.bits = 16 ∨ s.prov.bits = 32)
+    (hseg : Source.segLenOf rcS (startConf envS req rcS s (decide (F.length > 4294967295))) = some seg)
+    (hseg0 : 0 < seg) (hmode : s.p.conf.mode = .ack) (hct : s.p.checkTimer = none)
+    (hk : n * seg < F.length ∧ F.length ≤ (n + 1) * seg)
+    (hcks : Checksum.calcChecksum (Checksum.CksType.ofNat rcS.cks) F F.length seg = .ok crc)
+    (hnull : Checksum.CksType.ofNat rcS.cks ≠ .null) (hlen : crc.length = 4) (hack : rcS.ackMs ≠ 0)
+    (ha : AdmissibleA envD rcD { startConf envS req rcS s (decide (F.length > 4294967295)) with dir := .toRecv })
+    (hackD : rcD.ackMs ≠ 0) (hnak : rcD.nakMs ≠ 0)
+    (hmaxs : maxSegReqs rcD.maxPkt
+      (let c := startConf envS req rcS s (decide (F.length > 4294967295))
+       ⟨.toSend, c.mode, c.crc, c.large, c.src, c.dst, c.seq⟩) = some maxSegs) (hmax1 : 1 ≤ maxSegs)
+    (hidle : d0.state = .idle) (hdq : d0.queue = []) (hdr : d0.numReady = 0) (hrej : d0.rejects = [])
+    (hfl : d0.flts = []) (hnd : Fs.isDir d0.fs dst = false)
+    (hok : (∃ old, d0.fs.get dst = some (.file old)) ∨
+           (Fs.exists' d0.fs dst = false ∧ Fs.parentIsDir d0.fs dst = true)) :
+    let conf := startConf envS req rcS s (decide (F.length > 4294967295))
+    let cd : Hdr := ⟨.toSend, conf.mode, conf.crc, conf.large, conf.src, conf.dst, conf.seq⟩
+    let fpOk : FinishedParams := ⟨ccNoError, dcComplete, fsRetained, none⟩
+    let md := Source.mkMd conf s.p.closure rcS.cks F.length (some src) (some dst) (some (req.msgs.getD []))
+    let eof := Source.mkEof conf ccNoError crc F.length
+    let lost := tile conf F seg 0 n
+    let nak : Pdu := .nak cd 0 F.length [(n * seg, F.length)]
+    ∃ s3 d5 s4 d6 s5 d7 s6 d8 s7,
+      rounds envS (1 + (n + 1) + 1) s = some ([md] ++ (List.range (n + 1)).map (tile conf F seg 0) ++ [eof], s3) ∧
+      -- the receiver gets everything but the last tile
+      feedPdus envD ([md] ++ (List.range n).map (tile conf F seg 0) ++ [eof]) d0 = some d5 ∧
+      d5.queue = [.ack cd dtEof ccNoError tsActive] ∧
+      Source.stateMachine ⟨envS.cfg, tA⟩ (some (.ack cd dtEof ccNoError tsActive)) s3 = .ok () s4 ∧
+      Dest.stateMachine ⟨envD.cfg, tD1⟩ none (drained d5) = .ok () d6 ∧ d6.queue = [nak] ∧
+      Source.stateMachine ⟨envS.cfg, t1⟩ (some nak) s4 = .ok () s5 ∧ s5.queue = [lost] ∧
+      Dest.stateMachine ⟨envD.cfg, t2⟩ (some lost) (drained d6) = .ok () d7 ∧ d7.queue = [.fin cd fpOk] ∧
+      Source.stateMachine ⟨envS.cfg, t3⟩ (some (.fin cd fpOk)) (Source.C07.drained s5) = .ok () s6 ∧
+      s6.queue = [Source.mkAck conf dtFinished ccNoError tsActive] ∧
+      Dest.stateMachine ⟨envD.cfg, t4⟩ (some (Source.mkAck conf dtFinished ccNoError tsActive)) (drained d7) = .ok () d8 ∧
+      Source.stateMachine ⟨envS.cfg, t5⟩ none (Source.C07.drained s6) = .ok () s7 ∧
+      s7.state = .idle ∧ d8.state = .idle ∧ s7.queue = [] ∧ d8.queue = [] ∧
+      d8.fs.get dst = some (.file F) ∧ (∀ q, q ≠ dst → d8.fs.get q = d0.fs.get q) ∧ s7.fs = s.fs ∧
+      d8.flts = [] ∧ s7.flts = s.flts ∧
+      s7.inds.filter isFinished = s.inds.filter isFinished ++
+        (if envS.cfg.indFinished then [.finished (some ⟨envS.cfg.entityId, ⟨s.prov.next, s.prov.bits / 8⟩⟩) fpOk]
+         else []) ∧
+      d8.inds.filter isFinished = d0.inds.filter isFinished ++
+        (if envD.cfg.indFinished then [.finished (some ⟨conf.src, conf.seq⟩) fpOk] else []) := by
+  intro conf cd fpOk md eof lost nak
+  let tid : Tid := ⟨envS.cfg.entityId, ⟨s.prov.next, s.prov.bits / 8⟩⟩
+  have hsrcv : conf.src.val = envS.cfg.entityId.val := by simp [conf, startConf]
+  have hdstv : conf.dst.val = rcS.entityId.val := by simp [conf, startConf, hrcid]
+  have hmodeC : conf.mode = .ack := by simp [conf, startConf, hmode]
+  have e1 : (n + 1) * seg = n * seg + seg := by rw [Nat.add_mul, Nat.one_mul]
+  have haT : ∀ t, AdmissibleA ⟨envD.cfg, t⟩ rcD { conf with dir := .toRecv } := fun t =>
+    ⟨rfl, ha.hdst, ha.hsrc, ha.hmode⟩
+  -- the sender
+  obtain ⟨s3, hrun, hS3, hstep3, -, -, -, -, -, hct3, hfs3, hfl3, hin3, -⟩ :=
+    C03_sender_run_to_eof envS s req rcS src dst F crc seg (n + 1) hst hstep hq hreq hpmo hsrc hdst hfile hF hprog hrc
+      hbits hseg hseg0 hmode hct (by simpa using hk) hcks hnull hlen hack
+  have hadm3 : AdmissibleS ⟨envS.cfg, tA⟩ s3 rcS cd :=
+    { hdir := rfl, hsrc := hsrcv, hrc := hS3.hrc, hdst := hdstv, hseq := by rw [hS3.hconf],
+      hmode := by rw [hS3.hconf]; exact hmodeC }
+  have h4 := C02_source_eof_acked ⟨envS.cfg, tA⟩ s3 rcS cd ccNoError tsActive req hadm3 hS3.hbusy hstep3 hS3.hqueue
+    hS3.hreq hct3
+  have hS4 : SentAllS { s3 with step := .WAITING_FOR_FINISHED } req src F seg conf rcS tid :=
+    ⟨hS3.hbusy, hS3.hqueue, hS3.hreq, hS3.hsrc, hS3.hfile, hS3.hseg, hS3.hprog, hS3.hconf, hS3.hrc, hS3.htid⟩
+  -- the receiver: Metadata, n tiles, EOF
+  obtain ⟨hmd, hR1⟩ := C02_metadata_ack envD d0 { conf with dir := .toRecv } rcD s.p.closure rcS.cks F.length src dst
+    (some (req.msgs.getD [])) ha hidle hdq hdr hrej hfl hnd hok
+  obtain ⟨d2, hfeed2, hR2, hother2, hfin2⟩ := receiver_takes_tiles_ack envD conf _ rcD _ rcS.cks dst F seg hseg0 ha n _
+    (by rcases Nat.eq_zero_or_pos n with h0 | h0
+        · exact Or.inl h0
+        · right
+          have : (n - 1) * seg ≤ n * seg := Nat.mul_le_mul_right _ (by omega)
+          omega) hR1
+  have hpt2 : d2.p.procTimer = none := by
+    rw [receiver_tiles_keep_timer envD conf _ rcD _ rcS.cks dst F seg hseg0 ha n _ d2
+      (by rcases Nat.eq_zero_or_pos n with h0 | h0
+          · exact Or.inl h0
+          · right
+            have : (n - 1) * seg ≤ n * seg := Nat.mul_le_mul_right _ (by omega)
+            omega) hR1 hfeed2]
+    rfl
+  have hla : (F.take (n * seg)).length = n * seg := by simp [List.length_take]; omega
+  have heof := C03_eof_tail_missing envD d2 dst F crc (n * seg) rcD _ rcS.cks cd { conf with dir := .toRecv } hR2 ha hk.1
+  have hA : AckedH (drained (afterEofTail envD d2 ⟨conf.src, conf.seq⟩ crc (n * seg) F.length)) dst F crc (n * seg) F.length
+      rcD ⟨conf.src, conf.seq⟩ rcS.cks cd (F.take (n * seg)) (n * seg) :=
+    { hbusy := hR2.hbusy, hstep := rfl, hready := rfl, hqueue := rfl, hconf := hR2.hconf, hmode := hR2.hmode,
+      hname := hR2.hname, hfile := hR2.hfile, hprog := by show d2.p.progress = n * seg; rw [hR2.hprog, hla],
+      hcrc := rfl, hfse := rfl,
+      hrc := hR2.hrc, htid := hR2.htid, hrej := hR2.hrej, hcks := hR2.hcks, hcancel := hR2.hcancel, hmo := hR2.hmo,
+      hfin := hR2.hfin, htrk := rfl, hmm := hR2.hmm, hdef := hR2.hdef, hpt := hpt2 }
+  have hdef := C03_deferred_requests_hole ⟨envD.cfg, tD1⟩ _ dst F crc (n * seg) F.length rcD _ rcS.cks _ maxSegs _ _ hA
+    hmaxs hmax1 hnak
+  have hW : Waiting (drained (afterDeferred ⟨envD.cfg, tD1⟩
+      (drained (afterEofTail envD d2 ⟨conf.src, conf.seq⟩ crc (n * seg) F.length)) F (n * seg) F.length rcD))
+      dst F crc (n * seg) F.length rcD ⟨conf.src, conf.seq⟩ rcS.cks cd ⟨tD1, rcD.nakMs⟩ (F.take (n * seg)) (n * seg) :=
+    { hbusy := hR2.hbusy, hstep := rfl, hready := rfl, hqueue := rfl, hconf := hR2.hconf, hmode := hR2.hmode,
+      hname := hR2.hname, hfile := hR2.hfile, hprog := by show d2.p.progress = n * seg; rw [hR2.hprog, hla],
+      hcrc := rfl, hfse := rfl,
+      hrc := hR2.hrc, htid := hR2.htid, hrej := hR2.hrej, hcks := hR2.hcks, hcancel := hR2.hcancel, hmo := hR2.hmo,
+      hfin := hR2.hfin, htrk := rfl, hmm := hR2.hmm, hdef := rfl, hpt := rfl, hlastS := rfl, hlastE := rfl }
+  have hwr : Fs.writeBytes (F.take (n * seg)) ((F.drop (n * seg)).take (F.length - n * seg)) (n * seg) = F := by
+    have h1 : (F.drop (n * seg)).take (F.length - n * seg) = F.drop (n * seg) := by
+      apply List.take_of_length_le; simp [List.length_drop]
+    have hne : (F.drop (n * seg)).isEmpty = false := by
+      cases hh : F.drop (n * seg) with
+      | nil => have := congrArg List.length hh; simp [List.length_drop] at this; omega
+      | cons _ _ => rfl
+    rw [h1]
+    simp only [Fs.writeBytes, hne, hla, Nat.lt_irrefl, gt_iff_lt, ite_false, Bool.false_eq_true]
+    have e1' : (F.take (n * seg)).take (n * seg) = F.take (n * seg) := List.take_of_length_le (by omega)
+    have e2 : (F.take (n * seg)).drop (n * seg + (F.drop (n * seg)).length) = [] := List.drop_of_length_le (by omega)
+    rw [e1', e2, List.append_nil, List.take_append_drop]
+  have hcrc : rcS.cks = 15 ∨ ∀ fs : Fs, fs.get dst = some (.file F) →
+      Fs.calcChecksum fs (Checksum.CksType.ofNat rcS.cks) dst F.length 4096 = .ok crc := by
+    right
+    intro fs hf
+    have := Checksum.C09.C09_chunk_length_irrelevant (Checksum.CksType.ofNat rcS.cks) F F.length seg 4096
+      (by omega) (by omega)
+    simp [Fs.calcChecksum, hnull, hf, ← this, hcks]
+  obtain ⟨s5, d7, s6, d8, s7, h5, hq5, h7, hq7, h6, hq6, h8, h9, hi7, hi8, hqs7, hqd8, hfile8, hother8, hfs7, hfl8, hfl7,
+      hin7, hin8⟩ :=
+    C03_recovery_from_waiting_short envS.cfg envD.cfg { s3 with step := .WAITING_FOR_FINISHED } _ req src dst F crc
+      (F.take (n * seg)) seg (n * seg) F.length (n * seg) conf rcS rcD tid rcS.cks _ t1 t2 t3 t4 t5 hS4 (Or.inl rfl) hW
+      haT hsrcv hdstv hk.1 (by omega) (Nat.le_refl _) hackD hwr (by omega) hcrc
+  have hl : Source.mkFd conf (n * seg) ((F.drop (n * seg)).take (F.length - n * seg)) = lost := by
+    have hall : (F.drop (n * seg)).take (F.length - n * seg) = (F.drop (n * seg)).take seg := by
+      rw [List.take_of_length_le (by simp [List.length_drop]), List.take_of_length_le (by simp [List.length_drop]; omega)]
+    simp [lost, tile, hall]
+  rw [hl] at hq5 h7
+  have hfeed : feedPdus envD ([md] ++ (List.range n).map (tile conf F seg 0) ++ [eof]) d0 =
+      some (afterEofTail envD d2 ⟨conf.src, conf.seq⟩ crc (n * seg) F.length) := by
+    rw [feedPdus_append, feedPdus_append]
+    simp only [feedPdus, md, Source.mkMd, hmd, Option.bind, hfeed2, eof, Source.mkEof, heof]
+  refine ⟨s3, _, _, _, s5, d7, s6, d8, s7, hrun, hfeed, ?_, h4, hdef, ?_, h5, hq5, h7, hq7, h6, hq6, h8, h9, hi7, hi8,
+    hqs7, hqd8, hfile8, ?_, ?_, ?_, ?_, ?_, ?_⟩
+  · simp [afterEofTail, hR2.hconf, Dest.mkAck, dtEof, dtFinished, cd]
+  · simp [afterDeferred, C02.drained, afterEofTail, eofTailP, hR2.hconf, Dest.mkNak, nak, cd]
+  · intro q hq'
+    rw [hother8 q hq']
+    show d2.fs.get q = _
+    rw [hother2 q hq']
+    simp [afterMdA, Fs.C17.get_set_other _ _ _ _ hq']
+  · rw [hfs7]; exact hfs3
+  · rw [hfl8]; show d2.flts = []
+    exact hR2.hflts
+  · rw [hfl7]; exact hfl3
+  · rw [hin7]; show s3.inds.filter isFinished ++ _ = _
+    rw [hin3]
+  · rw [hin8]
+    simp only [C02.drained, afterDeferred, afterEofTail, List.filter_append, hfin2]
+    have h1 : (afterMdA envD d0 { conf with dir := .toRecv } rcD s.p.closure rcS.cks F.length src dst
+        (some (req.msgs.getD []))).inds.filter isFinished = d0.inds.filter isFinished := by
+      simp [afterMdA, isFinished]
+    rw [h1]
+    cases envD.cfg.indEofRecv <;> simp [isFinished, fpOk]
+
+
 end Cfdp.C03
 
 /-! ## the hypotheses of the composed theorems are satisfiable (non-vacuity) -/
@@ -3853,6 +4182,16 @@ example : True := by
     rfl rfl rfl rfl rfl rfl rfl rfl (by decide) rfl rfl rfl (by decide) (by decide) (by decide) rfl rfl
     (by decide) (by decide +kernel) (by decide) rfl (by decide)
     ⟨rfl, rfl, by decide, rfl⟩ (by decide) (by decide) rfl (by decide) (by decide)
+    rfl rfl rfl rfl rfl (by decide) (Or.inl ⟨[9], rfl⟩)
+  trivial
+
+/-- the hypotheses of `C03_end_to_end_last_tile_loss` are satisfiable: the third (1-byte) tile is lost -/
+example : True := by
+  have h := C03_end_to_end_last_tile_loss envS envD s d0 req rcS rcD "/a" "/b" F [71, 11, 153, 244] 2 2 29
+    1 2 3 4 5 6 7
+    rfl rfl rfl rfl rfl rfl rfl rfl (by decide) rfl rfl rfl (by decide) (by decide) (by decide) rfl rfl
+    (by decide) (by decide +kernel) (by decide) rfl (by decide)
+    ⟨rfl, rfl, by decide, rfl⟩ (by decide) (by decide) (by decide) (by decide)
     rfl rfl rfl rfl rfl (by decide) (Or.inl ⟨[9], rfl⟩)
   trivial
 
